@@ -12,6 +12,7 @@ import (
 	"fmt"
 	"math/rand"
 	"os"
+	"os/exec"
 	"path/filepath"
 	"sort"
 	"strings"
@@ -215,6 +216,21 @@ func buildRecord(c RecCase, setID uint, rng *rand.Rand) []byte {
 	panic("unknown shape " + c.Shape)
 }
 
+var agentExe string
+
+// cli runs the built binary on the store configuration cfg and returns its exit status and output.
+func cli(cfg string, args ...string) (int, string) {
+	cmd := exec.Command(agentExe, append([]string{"--store", cfg}, args...)...)
+	out, err := cmd.CombinedOutput()
+	if ee, ok := err.(*exec.ExitError); ok {
+		return ee.ExitCode(), string(out)
+	}
+	if err != nil {
+		return -1, err.Error()
+	}
+	return 0, string(out)
+}
+
 func runRecord(dir string, e *RecEdge, seed int64) {
 	rng := rand.New(rand.NewSource(seed))
 	for _, setID := range []uint{1, 2, 3} { // 3: scrypt with explicit r and p (p != r)
@@ -329,6 +345,31 @@ func runRecord(dir string, e *RecEdge, seed int64) {
 					violate("C02", "remove-left-file:"+key, "the file is still there", e)
 				}
 			})
+			// the same rules through the agent layer (the built binary), for the files without supported hash
+			if agentExe != "" && e.Supported == "mustnot" && ext == ".user" && setID != 3 {
+				must(os.WriteFile(file, content, 0600))
+				mu.Lock()
+				execs += 4
+				mu.Unlock()
+				if rc, out := cli(cfg, "list"); rc != 0 || strings.Contains(out, "target") {
+					violate("C02", "cli:unsupported-listed:"+key, fmt.Sprintf("exit %d: %.200s", rc, out), e)
+				}
+				if rc, out := cli(cfg, "add", "target", "some new password 77"); rc == 0 {
+					violate("C02", "cli:add-over-existing:"+key, out, e)
+				}
+				if rc, out := cli(cfg, "update", "target", "some new password 77"); rc == 0 {
+					violate("C02", "cli:update-overwrote-unsupported:"+key, out, e)
+				}
+				if now, _ := os.ReadFile(file); !bytes.Equal(now, content) {
+					violate("C02", "cli:refused-write-changed-file:"+key, "the file differs after refused add/update", e)
+				}
+				if rc, out := cli(cfg, "remove", "target"); rc != 0 {
+					violate("C02", "cli:remove-refused:"+key, fmt.Sprintf("exit %d: %.200s", rc, out), e)
+				}
+				if _, err := os.Stat(file); err == nil {
+					violate("C02", "cli:remove-left-file:"+key, "the file is still there after `remove target`", e)
+				}
+			}
 		}
 	}
 }
@@ -393,7 +434,7 @@ func runDir(dir string, e *DirEdge, seed int64, rec map[string]string) {
 			ents = append(ents, ent{"d.user", nil, true})
 		}
 		if e.Dir.Inv != "none" {
-			ents = append(ents, ent{strings.TrimSuffix(e.Dir.Inv, "-sup"), sup, false})
+			ents = append(ents, ent{strings.Replace(strings.TrimSuffix(e.Dir.Inv, "-sup"), "KELVIN", "\u212a", 1), sup, false})
 		}
 		if order == 1 {
 			for i, j := 0, len(ents)-1; i < j; i, j = i+1, j-1 {
@@ -487,6 +528,7 @@ func main() {
 	outp := flag.String("out", "", "result json")
 	seed := flag.Int64("seed", 1, "seed")
 	scratch := flag.String("scratch", "/dev/shm/verif-casereplay", "scratch")
+	flag.StringVar(&agentExe, "agent", "", "built whawty-auth binary: the schema's rules for unsupported files also through the command line")
 	flag.Parse()
 	start := time.Now()
 	f, err := os.Open(*in)
